@@ -51,6 +51,10 @@ type rwOp struct {
 	N        int          `json:"n,omitempty"`         // finish: how many; advance: milliseconds
 	Skip     int          `json:"skip,omitempty"`      // finish: start at this pending index (out-of-order completion)
 	How      string       `json:"how,omitempty"`       // break: recvErr | recvEOF | sendErr | cancel | lifetime
+	// Window (break of a target stream): the dying sender is parked right after it closed its delivery channel, still
+	// registered, until the target's next connect (or the end of the history): what arrives for that shard meanwhile
+	// meets a closed channel
+	Window bool `json:"window,omitempty"`
 }
 
 type rwTaskSpec struct {
@@ -185,6 +189,9 @@ type rwTaskRec struct {
 	msgIndex int // index of the carrying message on that incarnation's source face
 	// deliveries of this copy
 	deliveries []rwDelivery
+	// inClosedWindow: handed to the proxy while the owning target's dying sender was parked with its delivery channel
+	// closed (so it cannot have been queued on that incarnation)
+	inClosedWindow bool
 }
 
 type rwDelivery struct {
@@ -255,6 +262,8 @@ type rwTargetMsg struct {
 }
 
 type rwWorld struct {
+	gates        *c08Gates
+	windowTarget int // target index whose dying sender is parked at "sender.closed" (-1: none)
 	c        rwCase
 	sm       *shardManagerImpl
 	lifetime context.Context
@@ -320,13 +329,31 @@ func (vfHookProvider) Get(c logging.LogComponentName) log.Logger {
 }
 func (p vfHookProvider) With(...tag.Tag) logging.LoggerProvider { return p }
 
+func (w *rwWorld) windowParked() bool {
+	if w.gates == nil || w.windowTarget < 0 {
+		return false
+	}
+	w.gates.mu.Lock()
+	defer w.gates.mu.Unlock()
+	return w.gates.parked["sender.closed"]
+}
+
+// closeWindow lets the parked sender finish its shutdown.
+func (w *rwWorld) closeWindow() {
+	if w.gates != nil && w.windowTarget >= 0 {
+		w.gates.release("sender.closed")
+		w.windowTarget = -1
+		vfQuiesce()
+	}
+}
+
 func newRWWorld(c rwCase) *rwWorld {
 	var lp logging.LoggerProvider = vfHookProvider{}
 	scc := config.ShardCountConfig{Mode: config.ShardCountRouting, LocalShardCount: int32(c.NS), RemoteShardCount: int32(c.NT)}
 	sm := NewShardManager(nil, scc, encryption.TLSConfig{}, lp).(*shardManagerImpl)
 	ctx, cancel := context.WithCancel(context.Background())
 	_ = sm.Start(ctx)
-	w := &rwWorld{c: c, sm: sm, lifetime: ctx, cancel: cancel, pool: rwPool(c.NT), byMarker: map[string]*rwTaskRec{}, classes: map[string]int{}}
+	w := &rwWorld{windowTarget: -1, c: c, sm: sm, lifetime: ctx, cancel: cancel, pool: rwPool(c.NT), byMarker: map[string]*rwTaskRec{}, classes: map[string]int{}}
 	for i := 0; i < c.NS; i++ {
 		w.sources = append(w.sources, &rwSource{idx: i, nextID: 10})
 	}
@@ -455,6 +482,7 @@ func (w *rwWorld) emit(o rwOp) {
 			RawTaskInfo:  &persistencespb.ReplicationTaskInfo{NamespaceId: p[0], WorkflowId: p[1], RunId: marker, TaskId: id, Version: 7},
 		}
 		rec := &rwTaskRec{src: s.idx, id: id, marker: marker, target: j, original: proto.Clone(task).(*replicationv1.ReplicationTask), srcInc: len(s.incs) - 1, msgIndex: len(s.sentMsgs)}
+		rec.inClosedWindow = w.windowTarget == j && w.windowParked()
 		w.byMarker[marker] = rec
 		s.allTasks = append(s.allTasks, rec)
 		recs = append(recs, rec)
@@ -698,12 +726,13 @@ func (w *rwWorld) classifyPair(s *rwSource, a rwSourceAck, id int64) string {
 		return "stale_state_after_source_reconnect"
 	}
 	owner := -1
-	delivered, onEnded := false, false
+	delivered, onEnded, closedWindow := false, false, false
 	for _, r := range s.allTasks {
 		if r.id != id {
 			continue
 		}
 		owner = r.target
+		closedWindow = closedWindow || r.inClosedWindow
 		for _, d := range r.deliveries {
 			delivered = true
 			t := w.targets[d.target]
@@ -714,6 +743,11 @@ func (w *rwWorld) classifyPair(s *rwSource, a rwSourceAck, id int64) string {
 	}
 	if delivered && onEnded {
 		return "lost_with_dead_target_incarnation"
+	}
+	if !delivered && closedWindow {
+		// it reached the proxy when the dead incarnation's channel was already closed: it was never queued on that
+		// incarnation, the proxy dropped it
+		return "dropped_after_the_target_sender_closed_its_channel"
 	}
 	if !delivered && owner >= 0 {
 		t := w.targets[owner]
